@@ -53,6 +53,29 @@ MerkleBlockParts(h, total, hashes, flags) ==
   HeaderParts(h) \o << B(Cat(LE16(total), CompactSize(Len(hashes)))) >> \o hashes
                  \o << B(Cat(CompactSize(Len(flags)), Lit(flags))) >>
 
+\* ---------------------------------------------------------------- block message
+\* the payload of a "block" message is the block itself (protocol documentation, message "block")
+BlockMsgParts(h, txs) == BlockParts(h, txs)
+
+\* ---------------------------------------------------------------- where the formats apply
+(* Everything above is a function of the bytes.  The library serves several networks from one process; some have  *)
+(* transaction / block classes of their own (Litecoin) or another header layout (Bitcoin Gold).  What a network   *)
+(* with Bitcoin's format answers does not depend on which other networks the process loaded, nor on whether they  *)
+(* were loaded before or after it.  LoadOrders: the configurations in which the message cases are executed (each  *)
+(* in a process of its own, all networks loaded first); Driven: the networks asked (Bitcoin's format).            *)
+LoadOrders == << <<"BTC", "XTN", "LTC", "BTG">>, <<"BTG", "LTC", "XTN", "BTC">>, <<"BTC", "BTG", "XTN", "LTC">>,
+                 <<"LTC", "BTG", "BTC", "XTN">> >>
+Driven == {"BTC", "XTN", "LTC"}
+LastOf(i) == LoadOrders[i][Len(LoadOrders[i])]
+ASSUME LoadOrdersOk == \A i \in 1..Len(LoadOrders) :
+         /\ \A a, b \in 1..Len(LoadOrders[i]) : LoadOrders[i][a] = LoadOrders[i][b] => a = b
+         /\ \E a \in 1..Len(LoadOrders[i]) : LoadOrders[i][a] \in Driven
+\* every driven network is loaded last in one configuration and before others in another; a network with a layout
+\* of its own is loaded last in one and first in another
+ASSUME FirstAndLast == /\ \A net \in Driven : (\E i \in 1..Len(LoadOrders) : LastOf(i) = net) /\ (\E i \in 1..Len(LoadOrders) : LastOf(i) # net)
+                       /\ \E i \in 1..Len(LoadOrders) : LastOf(i) \notin Driven
+                       /\ \E i \in 1..Len(LoadOrders) : LoadOrders[i][1] \notin Driven
+
 \* ---------------------------------------------------------------- reading a wire image made of literals only
 AllLiteral(parts) == \A i \in 1..Len(parts) : parts[i].op = "b"
 Flat(parts) == CatAll([i \in 1..Len(parts) |-> parts[i].v])
